@@ -81,7 +81,9 @@ def check(ctx: Ctx) -> str:
         s = ast.unparse(fi.node)
         ctx.check("soft_str(" in s, f"{fname}:soft_str", f"filters:{fname}", "soft_str coercion", f"{fname} no longer coerces its input with soft_str (Markup/undefined handling changes)", fi.loc())
         if meth:
-            ctx.check(f").{meth}(" in s, f"{fname}:{meth}", f"filters:{fname}", f"str.{meth}", f"{fname} no longer applies str.{meth}", fi.loc())
+            # the method is applied to the coerced text (directly or through a local naming it)
+            applied = any(astq.attr_tail(c) == meth for c in astq.calls(fi.node))
+            ctx.check((f").{meth}(" in fi.ntext) or applied, f"{fname}:{meth}", f"filters:{fname}", f"str.{meth}", f"{fname} no longer applies str.{meth}", fi.loc())
     ft = repo.const_map("filters:FILTERS")
     want = {"int": "do_int", "float": "do_float", "upper": "do_upper", "lower": "do_lower", "capitalize": "do_capitalize", "center": "do_center", "trim": "do_trim", "title": "do_title",
             "truncate": "do_truncate", "wordwrap": "do_wordwrap", "wordcount": "do_wordcount", "indent": "do_indent", "replace": "do_replace", "format": "do_format", "striptags": "do_striptags",
@@ -147,9 +149,10 @@ def check(ctx: Ctx) -> str:
         oks = True
         if isinstance(safe, ast.IfExp):
             parts = [(safe.body, True), (safe.orelse, False)]
-            oks = ast.unparse(safe.test) == "for_qs" and all(isinstance(p_, ast.Constant) and isinstance(p_.value, bytes) for p_, _ in parts)
+            oks = ast.unparse(safe.test) in ("for_qs", "not for_qs") and all(isinstance(p_, ast.Constant) and isinstance(p_.value, bytes) for p_, _ in parts)
             if oks:
-                oks = safe.body.value == b"" and safe.orelse.value == b"/"  # type: ignore[attr-defined]
+                qs_arm, path_arm = (safe.body, safe.orelse) if ast.unparse(safe.test) == "for_qs" else (safe.orelse, safe.body)
+                oks = qs_arm.value == b"" and path_arm.value == b"/"  # type: ignore[attr-defined]
         elif isinstance(safe, ast.Constant) and isinstance(safe.value, bytes):
             gts = astq.guard_texts(uq.node, c)
             in_qs = any(g == "for_qs" and pol for g, pol in gts)
@@ -188,10 +191,16 @@ def check(ctx: Ctx) -> str:
     fs = repo.func("filters:do_filesizeformat")
     scaled = []
     for r_ in astq.returns(fs.node):
+        parts_: list[ast.AST] = []
         if isinstance(r_.value, ast.JoinedStr):
-            for fv in r_.value.values:
-                if isinstance(fv, ast.FormattedValue) and "unit" in {x.id for x in ast.walk(fv.value) if isinstance(x, ast.Name)}:
-                    scaled.append((ast.unparse(fv.value), r_))
+            parts_ = [fv.value for fv in r_.value.values if isinstance(fv, ast.FormattedValue)]
+        elif isinstance(r_.value, ast.Call) and astq.attr_tail(r_.value) == "format":
+            parts_ = list(r_.value.args) + [k_.value for k_ in r_.value.keywords]
+        elif isinstance(r_.value, ast.BinOp) and isinstance(r_.value.op, ast.Mod):
+            parts_ = list(r_.value.right.elts) if isinstance(r_.value.right, ast.Tuple) else [r_.value.right]
+        for pv in parts_:
+            if "unit" in {x.id for x in ast.walk(pv) if isinstance(x, ast.Name)}:
+                scaled.append((ast.unparse(pv), r_))
     ctx.need(bool(scaled), "do_filesizeformat: no return scaling by `unit` found")
     forms_ = sorted({t_ for t_, _ in scaled})
     ctx.check(len(forms_) == 1, "filesizeformat:scale-agreement", "filters:do_filesizeformat", f"returns scale by {forms_}",
